@@ -94,7 +94,7 @@ def gen_db(seed, genome, **opts):
     db.spec = spec
     db.genome = genome
     db.label = f"g{seed}{genome}"
-    db.path = dbgen.write(spec, util.scratch_dir(), f"genx_{seed}.yml")
+    db.path = dbgen.write(spec, util.scratch_dir(), f"{o.get('name', 'genx').lower()}_{seed}.yml")
     db.gene = dbgen.load(spec, genome)
     T = spec["truth"]["builds"][genome]
     db.ref = reads.Ref(db.gene, T["genome_seq"])
